@@ -80,6 +80,16 @@ WriteEntries(r) ==
     {[k |-> r.op.items[j].k, s |-> r.info.s, t |-> r.op.items[j].t, v |-> r.op.items[j].v]
         : j \in 1..Len(r.op.items)}
 
+\* "writes": two writers racing - consecutive seqnos in item order, inserted into the memtable
+\* in reverse order, published together
+WritesEntries(r) ==
+    {[k |-> r.op.items[j].k, s |-> r.info.s + j - 1, t |-> r.op.items[j].t, v |-> r.op.items[j].v]
+        : j \in 1..Len(r.op.items)}
+RECURSIVE WritesFold(_, _, _)
+WritesFold(st, items, j) ==
+    IF j > Len(items) THEN st
+    ELSE WritesFold(OpWrite(st, {[k |-> items[j].k, t |-> items[j].t, v |-> items[j].v]}), items, j + 1)
+
 PreWF(i) == WellFormed(Rec[StIdx(i - 1)].st)
 
 \* the filter function of a merge step (rule table of the behaviour over the merge input)
@@ -116,6 +126,7 @@ GhostStepForced(a, i, cfg) ==
     LET r == Rec[i] IN
     CASE r.op.op = "reset"  -> AInit
       [] r.op.op = "write"  -> AWrite(a, WriteEntries(r))
+      [] r.op.op = "writes" -> AWrite(a, WritesEntries(r))
       [] r.op.op = "rotate" -> ARotate(a)
       [] r.op.op = "flush"  -> AHazard(AFlush(a), StepHazard(i))
       [] r.op.op = "fifo" ->
@@ -201,6 +212,7 @@ Expected(i, cfg) ==
     LET r == Rec[i] pre == Pre(i) IN
     CASE r.op.op = "write"   -> OpWrite(pre, {[k |-> r.op.items[j].k, t |-> r.op.items[j].t,
                                                v |-> r.op.items[j].v] : j \in 1..Len(r.op.items)})
+      [] r.op.op = "writes"  -> WritesFold(pre, r.op.items, 1)
       [] r.op.op = "rotate"  -> OpRotate(pre)
       [] r.op.op = "flush"   -> OpFlushSep(pre, r.op.w, cfg.sep)
       [] r.op.op \in CompactOps -> CompactExpected(i)
